@@ -7,10 +7,10 @@ namespace C06
 
 /-! ### tree part: flatten to ids, rebuild against the roster -/
 
-/-- every node sits at a valid roster position that holds exactly its server -/
+/-- every node sits at a valid roster position that holds exactly its server (with a public key) -/
 def NodesOK (ro : List Server) : TN → Prop
   | .nil => True
-  | .node _ sid key idx _ c s => ro[idx]? = some ⟨sid, key⟩ ∧ NodesOK ro c ∧ NodesOK ro s
+  | .node _ sid key idx _ c s => ro[idx]? = some ⟨sid, key, false⟩ ∧ NodesOK ro c ∧ NodesOK ro s
 
 /-- a tree as the constructors and generators make it: it carries roster `ro`, has one root, its
 nodes point at their servers' roster positions and its aggregates are the computed ones -/
@@ -42,6 +42,37 @@ private theorem search_of_distinct : ∀ (l : List Server) (idx : Nat) (e : Serv
         exact List.mem_map_of_mem (List.mem_of_getElem? h)
       simp [search, hne, ih i e hn.2 h]
 
+/-- what `Roster.Search` returns is an entry of the list, at the position returned, with the
+identifier asked for — and no earlier entry has that identifier (first match) -/
+theorem search_spec : ∀ (l : List Server) (sid idx : Nat) (e : Server), search l sid = some (idx, e) →
+    l[idx]? = some e ∧ e.sid = sid ∧ ∀ j, j < idx → ∀ x, l[j]? = some x → x.sid ≠ sid := by
+  intro l
+  induction l with
+  | nil => intro sid idx e h; simp [search] at h
+  | cons x xs ih =>
+    intro sid idx e h
+    simp only [search] at h
+    split at h
+    · next hx =>
+      simp only [Option.some.injEq, Prod.mk.injEq] at h
+      obtain ⟨h1, h2⟩ := h
+      subst h1; subst h2
+      exact ⟨rfl, hx, fun j hj => absurd hj (Nat.not_lt_zero j)⟩
+    · next hx =>
+      cases hs : search xs sid with
+      | none => simp [hs] at h
+      | some p =>
+        obtain ⟨i, e'⟩ := p
+        simp only [hs, Option.map_some, Option.some.injEq, Prod.mk.injEq] at h
+        obtain ⟨h1, h2⟩ := h
+        subst h1; subst h2
+        obtain ⟨a1, a2, a3⟩ := ih sid i e' hs
+        refine ⟨by simpa using a1, a2, ?_⟩
+        intro j hj y hy
+        cases j with
+        | zero => simp only [List.getElem?_cons_zero, Option.some.injEq] at hy; subst hy; exact hx
+        | succ j' => exact a3 j' (by omega) y (by simpa using hy)
+
 /-- the forest with every aggregate field cleared -/
 def clearAgg : TN → TN
   | .nil => .nil
@@ -53,21 +84,21 @@ private theorem aggregate_clearAgg (f : TN) : aggregate (clearAgg f) = aggregate
   | node nid sid key idx agg c s ihc ihs => simp [clearAgg, aggregate, ihc, ihs]
 
 private theorem makeForest_copyTree (ro : List Server) (hd : (ro.map (·.sid)).Nodup) :
-    ∀ f, NodesOK ro f → makeForest ro (copyTree f) = some (clearAgg f) := by
+    ∀ f, NodesOK ro f → makeForest ro (copyTree f) = .ok (clearAgg f) := by
   intro f
   induction f with
   | nil => intro _; rfl
   | node nid sid key idx agg c s ihc ihs =>
     intro h
     obtain ⟨h1, h2, h3⟩ := h
-    have := search_of_distinct ro idx ⟨sid, key⟩ hd h1
+    have := search_of_distinct ro idx ⟨sid, key, false⟩ hd h1
     simp only at this
     simp [copyTree, makeForest, this, ihc h2, ihs h3, clearAgg]
 
 /-- **round trip**: for every tree over a roster of pairwise distinct servers, flattening it to
 identifiers (`MakeTreeMarshal`) and rebuilding it against the roster (`MakeTree`) gives back the
 very same tree: tree id, roster, node ids, structure, child order, roster positions and every
-subtree aggregate. -/
+subtree aggregate.  (One server may hold any number of nodes.) -/
 theorem c06_roundtrip (t : Tree) (ro : Roster) (hd : ro.Distinct) (h : t.WF ro) :
     makeTree (makeTreeMarshal t) (some ro) = .ok t := by
   obtain ⟨h1, h2, h3, h4⟩ := h
@@ -95,38 +126,195 @@ theorem c06_binary_roundtrip {B} (cd : Codec B) (hcodec : ∀ x, cd.decTM (cd.en
   simp only [binaryUnmarshal, binaryMarshal, hcodec2, h.1]
   exact c06_marshal_roundtrip cd hcodec t ro hd h
 
+/-- bytes that are no tree description (or no binary form) are refused with an error, whatever the
+roster: nothing is built from them -/
+theorem c06_undecodable_rejected {B} (cd : Codec B) (buf : B) (ro : Option Roster) :
+    (cd.decTM buf = none → newTreeFromMarshal cd buf ro = .error .codec) ∧
+    (cd.decTBM buf = none → binaryUnmarshal cd buf = .error .codec) := by
+  constructor
+  · intro h; simp [newTreeFromMarshal, h]
+  · intro h; simp [binaryUnmarshal, h]
+
 /-- the servers a description names -/
 def sidsOf : TM → List Nat
   | .nil => []
   | .node _ sid c s => sid :: (sidsOf c ++ sidsOf s)
 
-private theorem makeForest_unknown (ro : List Server) :
-    ∀ f, (∃ sid ∈ sidsOf f, search ro sid = none) → makeForest ro f = none := by
+/-- the roster has an entry for the server and that entry carries a public key -/
+def Usable (ro : List Server) (sid : Nat) : Prop := ∃ idx e, search ro sid = some (idx, e) ∧ e.nokey = false
+
+/-- every node of a rebuilt forest carries what `Roster.Search` says about its server: the position
+of the first entry with that identifier, and that entry's key -/
+def Placed (ro : List Server) : TN → Prop
+  | .nil => True
+  | .node _ sid key idx _ c s =>
+    (∃ e, search ro sid = some (idx, e) ∧ e.key = key ∧ e.nokey = false) ∧ Placed ro c ∧ Placed ro s
+
+/-- sum of the keys of all nodes of a forest -/
+def keySum : TN → Nat
+  | .nil => 0
+  | .node _ _ key _ _ c s => key + keySum c + keySum s
+
+/-- every node's aggregate is its key plus the keys of everything below it -/
+def AggOK : TN → Prop
+  | .nil => True
+  | .node _ _ key _ agg c s => agg = key + keySum c ∧ AggOK c ∧ AggOK s
+
+/-- the errors of `MakeTreeFromList` are the two of its own, and it succeeds exactly when every
+server named is usable -/
+theorem makeForest_ok_iff (ro : List Server) :
+    ∀ f, (∃ f', makeForest ro f = .ok f') ↔ ∀ sid ∈ sidsOf f, Usable ro sid := by
   intro f
   induction f with
-  | nil => intro ⟨_, h, _⟩; simp [sidsOf] at h
+  | nil => simp [makeForest, sidsOf]
   | node nid sid c s ihc ihs =>
-    intro ⟨x, hx, hs⟩
-    simp only [sidsOf, List.mem_cons, List.mem_append] at hx
-    simp only [makeForest]
-    rcases hx with hx | hx | hx
-    · subst hx; simp [hs]
-    · rw [ihc ⟨x, hx, hs⟩]; split <;> simp_all
-    · rw [ihs ⟨x, hx, hs⟩]; split <;> simp_all
+    simp only [makeForest, sidsOf, List.mem_cons, List.mem_append]
+    constructor
+    · intro ⟨f', h⟩
+      cases hs : search ro sid with
+      | none => simp [hs] at h
+      | some p =>
+        obtain ⟨idx, e⟩ := p
+        simp only [hs] at h
+        cases hk : e.nokey with
+        | true => simp [hk] at h
+        | false =>
+          simp only [hk, Bool.false_eq_true, if_false] at h
+          cases hc : makeForest ro c with
+          | error x => simp [hc] at h
+          | ok c' =>
+            simp only [hc] at h
+            cases hss : makeForest ro s with
+            | error x => simp [hss] at h
+            | ok s' =>
+              intro x hx
+              rcases hx with hx | hx | hx
+              · subst hx; exact ⟨idx, e, hs, hk⟩
+              · exact ihc.mp ⟨c', hc⟩ x hx
+              · exact ihs.mp ⟨s', hss⟩ x hx
+    · intro h
+      obtain ⟨idx, e, hs, hk⟩ := h sid (Or.inl rfl)
+      obtain ⟨c', hc⟩ := ihc.mpr (fun x hx => h x (Or.inr (Or.inl hx)))
+      obtain ⟨s', hss⟩ := ihs.mpr (fun x hx => h x (Or.inr (Or.inr hx)))
+      exact ⟨.node nid sid e.key idx 0 c' s', by simp [hs, hk, hc, hss]⟩
+
+theorem makeForest_error (ro : List Server) :
+    ∀ f e, makeForest ro f = .error e →
+      (e = .unknownServer ∨ e = .noKey) ∧ (e = .noKey → ∃ s ∈ ro, s.nokey = true) := by
+  intro f
+  induction f with
+  | nil => intro e h; simp [makeForest] at h
+  | node nid sid c s ihc ihs =>
+    intro e h
+    simp only [makeForest] at h
+    cases hs : search ro sid with
+    | none =>
+      simp only [hs, Except.error.injEq] at h
+      subst h
+      exact ⟨Or.inl rfl, fun h => by simp at h⟩
+    | some p =>
+      obtain ⟨idx, en⟩ := p
+      simp only [hs] at h
+      cases hk : en.nokey with
+      | true =>
+        simp only [hk, if_true, Except.error.injEq] at h
+        subst h
+        exact ⟨Or.inr rfl, fun _ => ⟨en, List.mem_of_getElem? (search_spec ro sid idx en hs).1, hk⟩⟩
+      | false =>
+        simp only [hk, Bool.false_eq_true, if_false] at h
+        cases hc : makeForest ro c with
+        | error x =>
+          simp only [hc, Except.error.injEq] at h
+          subst h; exact ihc x hc
+        | ok c' =>
+          simp only [hc] at h
+          cases hss : makeForest ro s with
+          | error x =>
+            simp only [hss, Except.error.injEq] at h
+            subst h; exact ihs x hss
+          | ok s' => simp [hss] at h
+
+/-- what `MakeTreeFromList` builds: the nodes of the description, in its structure and order, each
+placed where `Roster.Search` finds its server -/
+theorem makeForest_spec (ro : List Server) :
+    ∀ f f', makeForest ro f = .ok f' → copyTree f' = f ∧ Placed ro f' := by
+  intro f
+  induction f with
+  | nil => intro f' h; simp only [makeForest, Except.ok.injEq] at h; subst h; exact ⟨rfl, trivial⟩
+  | node nid sid c s ihc ihs =>
+    intro f' h
+    simp only [makeForest] at h
+    cases hs : search ro sid with
+    | none => simp [hs] at h
+    | some p =>
+      obtain ⟨idx, e⟩ := p
+      simp only [hs] at h
+      cases hk : e.nokey with
+      | true => simp [hk] at h
+      | false =>
+        simp only [hk, Bool.false_eq_true, if_false] at h
+        cases hc : makeForest ro c with
+        | error x => simp [hc] at h
+        | ok c' =>
+          simp only [hc] at h
+          cases hss : makeForest ro s with
+          | error x => simp [hss] at h
+          | ok s' =>
+            simp only [hss, Except.ok.injEq] at h
+            subst h
+            obtain ⟨c1, c2⟩ := ihc c' hc
+            obtain ⟨s1, s2⟩ := ihs s' hss
+            exact ⟨by simp [copyTree, c1, s1], ⟨e, hs, rfl, hk⟩, c2, s2⟩
 
 /-- **malformed and mismatching descriptions are refused with an error** (there is no other
 outcome: no tree, no panic): a missing roster, a roster with another id, a description without
-exactly one root, a description naming a server that is not in the roster. -/
+exactly one root, a description naming a server that is not in the roster or whose roster entry has
+no public key (the error is that of the first such node in depth-first order). -/
 theorem c06_reject_malformed (tm : TreeMarshal) :
     makeTree tm none = .error .noRoster ∧
     (∀ ro : Roster, ro.id ≠ tm.rosterId → makeTree tm (some ro) = .error .rosterId) ∧
     (∀ ro : Roster, ro.id = tm.rosterId → tm.children.len ≠ 1 → makeTree tm (some ro) = .error .notOneRoot) ∧
     (∀ ro : Roster, ro.id = tm.rosterId → tm.children.len = 1 →
-      (∃ sid ∈ sidsOf tm.children, search ro.list sid = none) → makeTree tm (some ro) = .error .unknownServer) := by
+      (∃ sid ∈ sidsOf tm.children, ¬ Usable ro.list sid) →
+      (makeTree tm (some ro) = .error .unknownServer ∨ makeTree tm (some ro) = .error .noKey) ∧
+      ((∀ s ∈ ro.list, s.nokey = false) → makeTree tm (some ro) = .error .unknownServer)) := by
   refine ⟨rfl, ?_, ?_, ?_⟩
   · intro ro h; simp [makeTree, h]
   · intro ro h1 h2; simp [makeTree, h1, h2]
-  · intro ro h1 h2 h3; simp [makeTree, h1, h2, makeForest_unknown ro.list _ h3]
+  · intro ro h1 h2 ⟨sid, hm, hu⟩
+    cases hf : makeForest ro.list tm.children with
+    | ok f' => exact absurd ((makeForest_ok_iff ro.list tm.children).mp ⟨f', hf⟩ sid hm) hu
+    | error e =>
+      have he := makeForest_error ro.list tm.children e hf
+      have hmt : makeTree tm (some ro) = .error e := by simp [makeTree, h1, h2, hf]
+      rw [hmt]
+      constructor
+      · rcases he.1 with h | h <;> simp [h]
+      · intro hall
+        rcases he.1 with h | h
+        · rw [h]
+        · obtain ⟨s, hs, hk⟩ := he.2 h
+          rw [hall s hs] at hk; simp at hk
+
+/-- **exactly which descriptions are accepted**: a roster is given, it carries the roster id the
+description names, the description has exactly one root, and every server it names is in the roster
+with a public key.  (The rule the harness's acceptance oracle applies to the real `MakeTree`.) -/
+theorem c06_maketree_accepts_iff (tm : TreeMarshal) (ro : Option Roster) :
+    (∃ t, makeTree tm ro = .ok t) ↔
+      ∃ r, ro = some r ∧ r.id = tm.rosterId ∧ tm.children.len = 1 ∧ ∀ sid ∈ sidsOf tm.children, Usable r.list sid := by
+  cases ro with
+  | none => simp [makeTree]
+  | some r =>
+    simp only [makeTree, Option.some.injEq, exists_eq_left']
+    by_cases h1 : r.id = tm.rosterId
+    · by_cases h2 : tm.children.len = 1
+      · simp only [h1, ne_eq, not_true_eq_false, if_false, h2, true_and]
+        rw [← makeForest_ok_iff]
+        cases makeForest r.list tm.children with
+        | error e => simp
+        | ok f => simp
+      · simp [h1, h2]
+    · simp [h1]
 
 /-- whatever `MakeTree` accepts carries the identifiers of the description and the roster given -/
 theorem makeTree_ok {tm : TreeMarshal} {ro : Option Roster} {t : Tree} (h : makeTree tm ro = .ok t) :
@@ -147,11 +335,6 @@ theorem makeTree_ok {tm : TreeMarshal} {ro : Option Roster} {t : Tree} (h : make
           exact ⟨rfl, rfl, r, rfl, by simpa using hid⟩
 
 /-! ### the aggregates are the sums the property speaks of -/
-
-/-- sum of the keys of all nodes of a forest -/
-def keySum : TN → Nat
-  | .nil => 0
-  | .node _ _ key _ _ c s => key + keySum c + keySum s
 
 private theorem aggregate_sum (f : TN) : (aggregate f).2 = keySum f := by
   induction f with
@@ -178,24 +361,159 @@ private theorem nodesOK_aggregate (ro : List Server) (f : TN) (h : NodesOK ro f)
   | nil => trivial
   | node nid sid key idx agg c s ihc ihs => exact ⟨h.1, ihc h.2.1, ihs h.2.2⟩
 
+private theorem placed_aggregate (ro : List Server) (f : TN) (h : Placed ro f) : Placed ro (aggregate f).1 := by
+  induction f with
+  | nil => trivial
+  | node nid sid key idx agg c s ihc ihs => exact ⟨h.1, ihc h.2.1, ihs h.2.2⟩
+
+private theorem keySum_aggregate (f : TN) : keySum (aggregate f).1 = keySum f := by
+  induction f with
+  | nil => rfl
+  | node nid sid key idx agg c s ihc ihs => simp [aggregate, keySum, ihc, ihs]
+
+private theorem aggOK_aggregate (f : TN) : AggOK (aggregate f).1 := by
+  induction f with
+  | nil => trivial
+  | node nid sid key idx agg c s ihc ihs =>
+    exact ⟨by simp [aggregate_sum, keySum_aggregate], ihc, ihs⟩
+
+/-- **what a rebuilt tree is, for any description that is accepted** — also one that no well-formed
+sender tree produced: it carries the tree id and roster given, its nodes are those of the
+description (node ids, server ids, parent/child structure, child order), every node sits at the
+position `Roster.Search` finds for its server and carries that entry's key, and every aggregate is
+the sum over the subtree. -/
+theorem c06_rebuilt_is_canonical {tm : TreeMarshal} {ro : Roster} {t : Tree} (h : makeTree tm (some ro) = .ok t) :
+    t.id = tm.treeId ∧ t.roster = some ro ∧ copyTree t.root = tm.children ∧ Placed ro.list t.root ∧ AggOK t.root := by
+  have hk := makeTree_ok h
+  refine ⟨hk.1, hk.2.1, ?_⟩
+  unfold makeTree at h
+  simp only at h
+  split at h
+  · simp at h
+  · split at h
+    · simp at h
+    · cases hf : makeForest ro.list tm.children with
+      | error e => simp [hf] at h
+      | ok f =>
+        simp only [hf, Except.ok.injEq] at h
+        subst h
+        obtain ⟨a, b⟩ := makeForest_spec ro.list _ f hf
+        exact ⟨by simp [copyTree_aggregate, a], placed_aggregate _ _ b, aggOK_aggregate f⟩
+
+/-- … and these conditions leave no choice: two forests with the same description, both placed by
+the roster and both carrying the subtree sums, are equal in every field -/
+theorem c06_canonical_unique (ro : List Server) : ∀ a b : TN,
+    copyTree a = copyTree b → Placed ro a → Placed ro b → AggOK a → AggOK b → a = b := by
+  intro a
+  induction a with
+  | nil => intro b h _ _ _ _; cases b with
+    | nil => rfl
+    | node _ _ _ _ _ _ _ => simp [copyTree] at h
+  | node nid sid key idx agg c s ihc ihs =>
+    intro b h pa pb ga gb
+    cases b with
+    | nil => simp [copyTree] at h
+    | node nid' sid' key' idx' agg' c' s' =>
+      simp only [copyTree, TM.node.injEq] at h
+      obtain ⟨h1, h2, h3, h4⟩ := h
+      subst h1; subst h2
+      obtain ⟨⟨e, pe, pk, _⟩, pc, ps⟩ := pa
+      obtain ⟨⟨e', pe', pk', _⟩, pc', ps'⟩ := pb
+      rw [pe] at pe'
+      simp only [Option.some.injEq, Prod.mk.injEq] at pe'
+      obtain ⟨hi, he⟩ := pe'
+      subst hi; subst he
+      have hc := ihc c' h3 pc pc' ga.2.1 gb.2.1
+      have hs := ihs s' h4 ps ps' ga.2.2 gb.2.2
+      subst hc; subst hs
+      subst pk; subst pk'
+      rw [ga.1, gb.1]
+
+/-- so the receiver's tree is a function of the description and the roster alone: whoever rebuilds
+the same description over the same roster holds the same tree -/
+theorem c06_rebuilt_determined (tm : TreeMarshal) (ro : Roster) (t t' : Tree)
+    (h : makeTree tm (some ro) = .ok t) (h' : t'.id = tm.treeId ∧ t'.roster = some ro ∧
+      copyTree t'.root = tm.children ∧ Placed ro.list t'.root ∧ AggOK t'.root) : t' = t := by
+  obtain ⟨a1, a2, a3, a4, a5⟩ := c06_rebuilt_is_canonical h
+  obtain ⟨b1, b2, b3, b4, b5⟩ := h'
+  have := c06_canonical_unique ro.list t'.root t.root (by rw [a3, b3]) b4 a4 b5 a5
+  cases t; cases t'
+  simp_all
+
 /-- non-vacuity: every tree made by `NewTree` from nodes that point at their servers is well formed -/
 theorem newTree_wf (id : Nat) (ro : Roster) (root : TN) (h1 : (copyTree root).len = 1) (h2 : NodesOK ro.list root) :
     (newTree id ro root).WF ro :=
   ⟨rfl, by simp [newTree, copyTree_aggregate, h1], nodesOK_aggregate _ _ h2, by simp [newTree, aggregate_idem]⟩
 
 example : ∃ (t : Tree) (ro : Roster), ro.Distinct ∧ t.WF ro ∧ makeTree (makeTreeMarshal t) (some ro) = .ok t := by
-  let ro : Roster := { id := 9, list := [⟨3, 4⟩, ⟨5, 6⟩, ⟨7, 8⟩] }
+  let ro : Roster := { id := 9, list := [⟨3, 4, false⟩, ⟨5, 6, false⟩, ⟨7, 8, false⟩] }
   let root : TN := .node 3 3 4 0 0 (.node 5 5 6 1 0 .nil (.node 7 7 8 2 0 .nil .nil)) .nil
   have hd : ro.Distinct := by unfold Roster.Distinct; decide
   have hw : (newTree 1 ro root).WF ro := newTree_wf 1 ro root (by decide) (by simp [NodesOK, ro, root])
   exact ⟨_, ro, hd, hw, c06_roundtrip _ ro hd hw⟩
 
+/-- non-vacuity with **one server holding several nodes** (their node ids coincide, as in the code:
+a node id is a hash of the server's key): server 5 is the root and two of the leaves -/
+example : ∃ (t : Tree) (ro : Roster), ro.Distinct ∧ t.WF ro ∧ makeTree (makeTreeMarshal t) (some ro) = .ok t ∧
+    t.root = .node 5 5 6 1 22 (.node 3 3 4 0 10 (.node 5 5 6 1 6 .nil .nil) (.node 5 5 6 1 6 .nil .nil)) .nil := by
+  let ro : Roster := { id := 9, list := [⟨3, 4, false⟩, ⟨5, 6, false⟩] }
+  let root : TN := .node 5 5 6 1 0 (.node 3 3 4 0 0 (.node 5 5 6 1 0 .nil .nil) (.node 5 5 6 1 0 .nil .nil)) .nil
+  have hd : ro.Distinct := by unfold Roster.Distinct; decide
+  have hw : (newTree 1 ro root).WF ro := newTree_wf 1 ro root (by decide) (by simp [NodesOK, ro, root])
+  exact ⟨_, ro, hd, hw, c06_roundtrip _ ro hd hw, by decide⟩
+
 /-- the premise "pairwise distinct servers" is needed: with a server listed twice, a node placed on
 the second occurrence comes back at the first (`Roster.Search` returns the first match) -/
 example : ∃ (t t' : Tree) (ro : Roster), t.WF ro ∧ makeTree (makeTreeMarshal t) (some ro) = .ok t' ∧ t' ≠ t := by
-  refine ⟨newTree 1 { id := 9, list := [⟨3, 4⟩, ⟨3, 4⟩] } (.node 3 3 4 1 0 .nil .nil), _,
-    { id := 9, list := [⟨3, 4⟩, ⟨3, 4⟩] }, newTree_wf _ _ _ (by decide) (by simp [NodesOK]), rfl, by decide⟩
+  refine ⟨newTree 1 { id := 9, list := [⟨3, 4, false⟩, ⟨3, 4, false⟩] } (.node 3 3 4 1 0 .nil .nil), _,
+    { id := 9, list := [⟨3, 4, false⟩, ⟨3, 4, false⟩] }, newTree_wf _ _ _ (by decide) (by simp [NodesOK]), rfl, by decide⟩
 
+/-- and so is "the nodes point at their servers' roster positions": `NewTreeNode` stores whatever
+index it is given; a hand-made tree whose nodes all carry index 0 comes back with the true positions
+(the rebuilt tree is the canonical one, the sender's was not) -/
+example : ∃ (t t' : Tree) (ro : Roster), ro.Distinct ∧ t.roster = some ro ∧
+    makeTree (makeTreeMarshal t) (some ro) = .ok t' ∧ t' ≠ t ∧ copyTree t'.root = copyTree t.root := by
+  let ro : Roster := { id := 9, list := [⟨3, 4, false⟩, ⟨5, 6, false⟩] }
+  exact ⟨newTree 1 ro (.node 3 3 4 0 0 (.node 5 5 6 0 0 .nil .nil) .nil),
+    newTree 1 ro (.node 3 3 4 0 0 (.node 5 5 6 1 0 .nil .nil) .nil), ro,
+    by unfold Roster.Distinct; decide, rfl, rfl, by decide, by decide⟩
+
+/-! ### `Tree.Equal` compares exactly what a description carries -/
+
+theorem nodeEqual_iff : ∀ a b : TN, nodeEqual a b = true ↔ copyTree a = copyTree b := by
+  intro a
+  induction a with
+  | nil => intro b; cases b <;> simp [nodeEqual, copyTree]
+  | node nid sid key idx agg c s ihc ihs =>
+    intro b
+    cases b with
+    | nil => simp [nodeEqual, copyTree]
+    | node nid' sid' key' idx' agg' c' s' =>
+      simp only [nodeEqual, copyTree, Bool.and_eq_true, beq_iff_eq, ihc c', ihs s', TM.node.injEq]
+      constructor
+      · intro ⟨⟨⟨a, b⟩, c⟩, d⟩; exact ⟨a, b, c, d⟩
+      · intro ⟨a, b, c, d⟩; exact ⟨⟨⟨a, b⟩, c⟩, d⟩
+
+/-- **`Tree.Equal` holds exactly when the two trees have the same description** (`MakeTreeMarshal`):
+tree id, roster id, node ids, server ids, structure and child order.  It does not look at keys,
+roster positions or aggregates — the harness's oracle compares those separately. -/
+theorem c06_equal_iff_same_description (t t' : Tree) (ro ro' : Roster) (h : t.roster = some ro) (h' : t'.roster = some ro') :
+    treeEqual t t' = some true ↔ makeTreeMarshal t = makeTreeMarshal t' := by
+  simp only [treeEqual, makeTreeMarshal, h, h', Option.some.injEq, Bool.and_eq_true, beq_iff_eq,
+    nodeEqual_iff, TreeMarshal.mk.injEq]
+  constructor
+  · intro ⟨⟨a, b⟩, c⟩; exact ⟨a, b, c⟩
+  · intro ⟨a, b, c⟩; exact ⟨⟨a, b⟩, c⟩
+
+/-- whatever is rebuilt from a tree's own description over its own roster is `Equal` to it — also
+when the tree is not well formed (stale roster positions, stale aggregates) and the rebuilt one
+therefore differs from it in those fields -/
+theorem c06_rebuilt_equal_original (t t' : Tree) (ro : Roster) (h : t.roster = some ro)
+    (hm : makeTree (makeTreeMarshal t) (some ro) = .ok t') : treeEqual t t' = some true := by
+  obtain ⟨a1, a2, a3, _, _⟩ := c06_rebuilt_is_canonical hm
+  rw [c06_equal_iff_same_description t t' ro ro h a2]
+  simp only [makeTreeMarshal, h] at a1 a3
+  simp only [makeTreeMarshal, h, a2, a1, a3]
 
 /-! ### history part: the tree store under arbitrary sequences of control messages -/
 
@@ -649,11 +967,7 @@ private theorem localStep_inv (o : Ovl) (l : Local) (h : StoreInv o) : StoreInv 
       · subst hid; simp [Ovl.isRequested, lookup_erase_self] at hr
       · exact h2 id' (by simpa [Ovl.isRequested, lookup_erase_ne _ _ _ hid] using hr)
 
-/-- **never a tree the server did not ask for** (as far as the code enforces it): after any
-history of peer messages and local events, every stored tree carries an identifier this server
-requested at some point or registered itself -/
-theorem c06_stored_was_requested_partial (evs : List Ev) :
-    ∀ id t, (runEv {} evs).get id = some t → id ∈ (runEv {} evs).everReq ∨ id ∈ (runEv {} evs).locals := by
+private theorem storeInv_run (evs : List Ev) : StoreInv (runEv {} evs) := by
   have h0 : StoreInv ({} : Ovl) := ⟨by intro id t h; simp [Ovl.get, lookup] at h,
     by intro id h; simp [Ovl.isRequested, lookup] at h, by intro rid sl tm h; simp [lookup] at h⟩
   have : ∀ (evs : List Ev) (o : Ovl), StoreInv o → StoreInv (runEv o evs) := by
@@ -667,7 +981,14 @@ theorem c06_stored_was_requested_partial (evs : List Ev) :
       cases e with
       | peer m => exact handle_inv o m h
       | loc l => exact localStep_inv o l h
-  exact (this evs {} h0).1
+  exact this evs {} h0
+
+/-- **never a tree the server did not ask for** (as far as the code enforces it): after any
+history of peer messages and local events, every stored tree carries an identifier this server
+requested at some point or registered itself -/
+theorem c06_stored_was_requested_partial (evs : List Ev) :
+    ∀ id t, (runEv {} evs).get id = some t → id ∈ (runEv {} evs).everReq ∨ id ∈ (runEv {} evs).locals :=
+  (storeInv_run evs).1
 
 /-! #### the full-strength statement, and the one history it fails on -/
 
@@ -680,7 +1001,7 @@ def C06_only_requested_full : Prop :=
 /-- the witness: request tree 1, receive its description in the deprecated form (roster unknown:
 parked), withdraw the request (it could not be sent), receive the roster -/
 def replayWitness : List Ev × Msg :=
-  let ro : Roster := { id := 1, list := [⟨3, 4⟩, ⟨5, 6⟩, ⟨7, 8⟩] }
+  let ro : Roster := { id := 1, list := [⟨3, 4, false⟩, ⟨5, 6, false⟩, ⟨7, 8, false⟩] }
   let tm : TreeMarshal := { treeId := 1, rosterId := 1, children := .node 3 3 (.node 5 5 .nil (.node 7 7 .nil .nil)) .nil }
   ([.loc (.request 1), .peer (.treeMarshal tm), .loc (.unrequest 1)], .sendRoster ro)
 
@@ -706,7 +1027,7 @@ theorem c06_peer_learns_same (snd rcv : Ovl) (t : Tree) (ro : Roster) (hd : ro.D
       (handle snd (.requestTree t.id v)).2 = [.responseTree (makeTreeMarshal t) (some ro)] ∧
       (handle rcv (.responseTree (some (makeTreeMarshal t)) (some ro))).1.get t.id = some t) ∧
     ((handle snd (.requestTree t.id 0)).2 = [.treeMarshal (makeTreeMarshal t)] ∧
-      (rcv.insts.filter (fun r => r.id = ro.id) = [] → lookup rcv.pending ro.id = none →
+      (rcv.instRoster ro.id = none → lookup rcv.pending ro.id = none →
         snd.getRoster ro.id = some ro →
         (handle rcv (.treeMarshal (makeTreeMarshal t))).2 = [.requestRoster ro.id] ∧
         (handle snd (.requestRoster ro.id)).2 = [.roster (some ro)] ∧
@@ -739,7 +1060,7 @@ theorem c06_peer_learns_same (snd rcv : Ovl) (t : Tree) (ro : Roster) (hd : ro.D
 that requested it -/
 example : ∃ (snd rcv : Ovl) (t : Tree) (ro : Roster), ro.Distinct ∧ t.WF ro ∧ t.id ≠ 0 ∧ ro.id ≠ 0 ∧
     snd.get t.id = some t ∧ rcv.isRequested t.id = true ∧ snd.getRoster ro.id = some ro := by
-  let ro : Roster := { id := 9, list := [⟨3, 4⟩, ⟨5, 6⟩] }
+  let ro : Roster := { id := 9, list := [⟨3, 4, false⟩, ⟨5, 6, false⟩] }
   let t := newTree 1 ro (.node 3 3 4 0 0 (.node 5 5 6 1 0 .nil .nil) .nil)
   exact ⟨localStep {} (.register t), localStep {} (.request 1), t, ro, by unfold Roster.Distinct; decide,
     newTree_wf 1 ro _ (by decide) (by simp [NodesOK, ro]), by decide, by decide, by decide, by decide, by decide⟩
@@ -762,15 +1083,369 @@ theorem c06_failed_request_leaves_no_marker (o : Ovl) (id : Nat) (tm : Option Tr
   rw [hreq] at this
   exact absurd this (by simp)
 
-/-- every node's aggregate is its key plus the keys of everything below it -/
-def AggOK : TN → Prop
-  | .nil => True
-  | .node _ _ key _ agg c s => agg = key + keySum c ∧ AggOK c ∧ AggOK s
+/-! #### what a peer can make the server store, exactly -/
 
-private theorem keySum_aggregate (f : TN) : keySum (aggregate f).1 = keySum f := by
-  induction f with
-  | nil => rfl
-  | node nid sid key idx agg c s ihc ihs => simp [aggregate, keySum, ihc, ihs]
+/-- **whatever a message from a peer puts into the store went through `MakeTree`'s checks**: a tree
+that is in the store after the message and was not there before is the rebuild of a description with
+that tree id over a roster (the one sent with it, the one of a live instance, or the roster message
+itself) — so nothing malformed or mismatching is ever stored, whichever of the five messages brings
+it and whichever of the three paths it takes. -/
+theorem c06_stored_is_rebuilt (o : Ovl) (m : Msg) (id : Nat) (t : Tree)
+    (h : (handle o m).1.get id = some t) (hnew : o.get id ≠ some t) :
+    ∃ tm ro, makeTree tm (some ro) = .ok t ∧ tm.treeId = id := by
+  have hst : ∀ (tm : Option TreeMarshal) (ro : Option Roster), (handleSendTree o tm ro).get id = some t →
+      ∃ tm ro, makeTree tm (some ro) = .ok t ∧ tm.treeId = id := by
+    intro tm ro hg
+    rcases handleSendTree_cases o tm ro with e | ⟨tm', r, t', _, _, _, _, hmk, e⟩
+    · rw [e] at hg; exact absurd hg hnew
+    · rw [e] at hg
+      by_cases hid : id = t'.id
+      · subst hid
+        rw [get_setTree_self] at hg
+        simp only [Option.some.injEq] at hg
+        subst hg
+        exact ⟨tm', r, hmk, (makeTree_ok hmk).1.symm⟩
+      · rw [get_setTree_ne _ _ _ hid] at hg; exact absurd hg hnew
+  cases m with
+  | requestTree tid v =>
+    simp only [handle] at h
+    split at h
+    · exact absurd h hnew
+    · split at h <;> exact absurd h hnew
+  | responseTree tm ro => exact hst tm ro h
+  | treeMarshal tm =>
+    simp only [handle] at h
+    split at h
+    · exact absurd h hnew
+    · split at h
+      · exact absurd h hnew
+      · split at h
+        · exact absurd (by simpa [Ovl.get] using h) hnew
+        · exact hst _ _ h
+  | requestRoster rid => exact absurd h hnew
+  | sendRoster ro =>
+    simp only [handle] at h
+    split at h
+    · exact absurd h hnew
+    · rw [checkPending_eq] at h
+      split at h
+      · exact absurd h hnew
+      · next sl _ =>
+        have := fold_pendStep_inv
+          (fun o' => ∀ t', o'.get id = some t' → o.get id = some t' ∨ ∃ tm, makeTree tm (some ro) = .ok t' ∧ tm.treeId = id)
+          ro (by
+            intro o' tm t' hP hnone hmk t'' hg
+            by_cases hid : id = t'.id
+            · subst hid
+              rw [get_setTree_self] at hg
+              simp only [Option.some.injEq] at hg
+              subst hg
+              exact Or.inr ⟨tm, hmk, (makeTree_ok hmk).1.symm⟩
+            · rw [get_setTree_ne _ _ _ hid] at hg; exact hP t'' hg) sl o (fun t' hg => Or.inl hg)
+        rcases this t (by simpa [Ovl.get] using h) with h1 | ⟨tm, h1, h2⟩
+        · exact absurd h1 hnew
+        · exact ⟨tm, ro, h1, h2⟩
+
+/-- **a requested, well-formed answer is stored**: when the slot is waiting and the description
+fits the roster sent with it, the tree rebuilt from the two is in the store afterwards (the other
+half of "only requested": nothing that was asked for and is in order gets lost) -/
+theorem c06_requested_wellformed_stored (o : Ovl) (tm : TreeMarshal) (ro : Roster) (t : Tree)
+    (hid : tm.treeId ≠ 0) (hreq : o.isRequested tm.treeId = true) (hmk : makeTree tm (some ro) = .ok t) :
+    (handle o (.responseTree (some tm) (some ro))).1.get tm.treeId = some t := by
+  simp only [handle, handleSendTree, hid, if_false, hreq, Bool.not_true, Bool.false_eq_true, hmk]
+  rw [← (makeTree_ok hmk).1]
+  exact get_setTree_self o t
+
+/-- a tree request and a roster request change nothing on the server that answers them; the answer
+to a tree request is the description of the stored tree and (unless the deprecated form is asked
+for) the roster it carries, the answer to a roster request is a roster with that id taken from a
+stored tree (an entry of the store), or the empty roster -/
+theorem c06_requests_read_only (o : Ovl) :
+    (∀ id v, (handle o (.requestTree id v)).1 = o ∧
+      (o.get id = none → (handle o (.requestTree id v)).2 = []) ∧
+      (∀ t, o.get id = some t → (handle o (.requestTree id v)).2 =
+        [if v = 0 then .treeMarshal (makeTreeMarshal t) else .responseTree (makeTreeMarshal t) t.roster])) ∧
+    (∀ rid, (handle o (.requestRoster rid)).1 = o ∧ (handle o (.requestRoster rid)).2 = [.roster (o.getRoster rid)] ∧
+      (∀ ro, o.getRoster rid = some ro → ro.id = rid ∧ ∃ p ∈ o.store, ∃ t, p.2 = some t ∧ t.roster = some ro)) := by
+  refine ⟨fun id v => ⟨?_, ?_, ?_⟩, fun rid => ⟨rfl, rfl, ?_⟩⟩
+  · simp only [handle]; split
+    · rfl
+    · split <;> rfl
+  · intro h; simp [handle, h]
+  · intro t h; simp only [handle, h]; split <;> rfl
+  · intro ro h
+    unfold Ovl.getRoster at h
+    obtain ⟨p, hp, hf⟩ := List.exists_of_findSome?_eq_some h
+    obtain ⟨k, v⟩ := p
+    cases v with
+    | none => simp at hf
+    | some t =>
+      simp only at hf
+      cases hr : t.roster with
+      | none => simp [hr] at hf
+      | some r =>
+        simp only [hr] at hf
+        split at hf
+        · next hid =>
+          simp only [Option.some.injEq] at hf
+          subst hf
+          exact ⟨hid, (k, some t), hp, t, rfl, hr⟩
+        · simp at hf
+
+/-! #### the full statement holds as long as no request is withdrawn -/
+
+private theorem fold_pendStep_pending (ro : Roster) : ∀ (sl : List TreeMarshal) (o : Ovl),
+    (sl.foldl (pendStep ro) o).pending = o.pending ∧ (sl.foldl (pendStep ro) o).everReq = o.everReq := by
+  intro sl
+  induction sl with
+  | nil => intro o; exact ⟨rfl, rfl⟩
+  | cons tm rest ih =>
+    intro o
+    simp only [List.foldl_cons]
+    rcases pendStep_cases ro o tm with e | ⟨t, _, _, e⟩
+    · rw [e]; exact ih o
+    · rw [e]; exact ih (o.setTree t)
+
+/-- an identifier that has an entry in the store (waiting or holding a tree) -/
+def Ovl.registered (o : Ovl) (id : Nat) : Prop := (lookup o.store id).isSome = true
+
+private theorem registered_setTree (o : Ovl) (t : Tree) (id : Nat) (h : o.registered id) : (o.setTree t).registered id := by
+  unfold Ovl.registered at *
+  by_cases hid : id = t.id
+  · subst hid; simp [Ovl.setTree, lookup_insert_self]
+  · rw [lookup_setTree_ne o t id hid]; exact h
+
+private theorem handleSendTree_registered (o : Ovl) (tm : Option TreeMarshal) (ro : Option Roster) (id : Nat)
+    (h : o.registered id) : (handleSendTree o tm ro).registered id := by
+  rcases handleSendTree_cases o tm ro with e | ⟨_, _, t, _, _, _, _, _, e⟩
+  · rw [e]; exact h
+  · rw [e]; exact registered_setTree o t id h
+
+private theorem fold_pendStep_registered (ro : Roster) (id : Nat) : ∀ (sl : List TreeMarshal) (o : Ovl),
+    o.registered id → (sl.foldl (pendStep ro) o).registered id := by
+  intro sl o h
+  exact fold_pendStep_inv (fun o' => o'.registered id) ro
+    (fun o' _ t hP _ _ => registered_setTree o' t id hP) sl o h
+
+/-- a message from a peer never takes an entry out of the store -/
+private theorem handle_registered (o : Ovl) (m : Msg) (id : Nat) (h : o.registered id) : (handle o m).1.registered id := by
+  cases m with
+  | requestTree tid v =>
+    simp only [handle]
+    split
+    · exact h
+    · split <;> exact h
+  | responseTree tm ro => exact handleSendTree_registered o tm ro id h
+  | treeMarshal tm =>
+    simp only [handle]
+    split
+    · exact h
+    · split
+      · exact h
+      · split
+        · exact h
+        · exact handleSendTree_registered o _ _ id h
+  | requestRoster rid => exact h
+  | sendRoster ro =>
+    simp only [handle]
+    split
+    · exact h
+    · rw [checkPending_eq]
+      split
+      · exact h
+      · next sl _ => exact fold_pendStep_registered ro id sl o h
+
+/-- the events that withdraw a request or drop a tree: a request that turns out not to be
+sendable (`Unregister`), the end of a tree's grace period -/
+def Ev.withdraws : Ev → Bool
+  | .loc (.unrequest _) => true
+  | .loc (.expire _) => true
+  | _ => false
+
+/-- every parked description belongs to an identifier that still has its entry in the store -/
+def ParkedLive (o : Ovl) : Prop :=
+  ∀ rid sl tm, lookup o.pending rid = some sl → tm ∈ sl → o.registered tm.treeId
+
+private theorem parkedLive_step (o : Ovl) (e : Ev) (hw : e.withdraws = false) (h : ParkedLive o) : ParkedLive (stepEv o e) := by
+  cases e with
+  | peer m =>
+    simp only [stepEv]
+    -- the table of parked descriptions changes in two ways only
+    cases m with
+    | requestTree tid v =>
+      simp only [handle]
+      split
+      · exact h
+      · split <;> exact h
+    | responseTree tm ro =>
+      intro rid sl tm' hl hm
+      have hp : (handleSendTree o tm ro).pending = o.pending := by
+        rcases handleSendTree_cases o tm ro with e | ⟨_, _, t, _, _, _, _, _, e⟩ <;> rw [e] <;> rfl
+      simp only [handle] at hl ⊢
+      rw [hp] at hl
+      exact handleSendTree_registered o tm ro _ (h rid sl tm' hl hm)
+    | treeMarshal tm =>
+      simp only [handle]
+      split
+      · exact h
+      · split
+        · exact h
+        · next hreq =>
+          have hreq' : o.isRequested tm.treeId = true := by simpa using hreq
+          split
+          · intro rid sl tm' hl hm
+            simp only at hl
+            show (lookup o.store tm'.treeId).isSome = true
+            by_cases hr : rid = tm.rosterId
+            · subst hr
+              simp only [lookup_insert_self, Option.some.injEq] at hl
+              subst hl
+              simp only [List.mem_append, List.mem_singleton] at hm
+              rcases hm with hm | hm
+              · cases hold : lookup o.pending tm.rosterId with
+                | none => simp [hold] at hm
+                | some l => simp [hold] at hm; exact h _ l tm' hold hm
+              · subst hm
+                simp only [Ovl.isRequested, beq_iff_eq] at hreq'
+                simp [hreq']
+            · rw [lookup_insert_ne _ _ _ _ hr] at hl
+              exact h rid sl tm' hl hm
+          · intro rid sl tm' hl hm
+            have hp : (handleSendTree o (some tm) (some ‹Roster›)).pending = o.pending := by
+              rcases handleSendTree_cases o (some tm) (some ‹Roster›) with e | ⟨_, _, t, _, _, _, _, _, e⟩ <;> rw [e] <;> rfl
+            rw [hp] at hl
+            exact handleSendTree_registered o _ _ _ (h rid sl tm' hl hm)
+    | requestRoster rid => exact h
+    | sendRoster ro =>
+      simp only [handle]
+      split
+      · exact h
+      · rw [checkPending_eq]
+        split
+        · exact h
+        · next sl hsl =>
+          intro rid sl' tm' hl hm
+          simp only at hl
+          by_cases hr : rid = ro.id
+          · subst hr; rw [lookup_erase_self] at hl; simp at hl
+          · rw [lookup_erase_ne _ _ _ hr, (fold_pendStep_pending ro sl o).1] at hl
+            exact fold_pendStep_registered ro _ sl o (h rid sl' tm' hl hm)
+  | loc l =>
+    simp only [stepEv]
+    cases l with
+    | reqSend id =>
+      simp only [localStep]
+      split
+      · intro rid sl tm hl hm
+        have := h rid sl tm hl hm
+        unfold Ovl.registered at *
+        by_cases hid : tm.treeId = id
+        · rw [hid]; simp [lookup_insert_self]
+        · simpa [lookup_insert_ne _ _ _ _ hid] using this
+      · exact h
+    | reqFail id =>
+      simp only [localStep]
+      split
+      · intro rid sl tm hl hm; exact h rid sl tm hl hm
+      · exact h
+    | request id =>
+      simp only [localStep]
+      intro rid sl tm hl hm
+      have := h rid sl tm hl hm
+      unfold Ovl.registered at *
+      by_cases hs : (lookup o.store id).isSome
+      · simpa [hs] using this
+      · by_cases hid : tm.treeId = id
+        · rw [hid]; simp [hs, lookup_insert_self]
+        · simpa [hs, lookup_insert_ne _ _ _ _ hid] using this
+    | unrequest id => simp [Ev.withdraws] at hw
+    | register t =>
+      simp only [localStep]
+      intro rid sl tm hl hm
+      exact registered_setTree { o with locals := t.id :: o.locals } t _ (h rid sl tm hl hm)
+    | «instance» t =>
+      simp only [localStep]
+      split
+      · intro rid sl tm hl hm
+        exact registered_setTree { o with locals := t.id :: o.locals } t _ (h rid sl tm hl hm)
+      · exact h
+    | expire id => simp [Ev.withdraws] at hw
+
+/-- **never a tree the server is not waiting for — in full, on every history in which no request is
+withdrawn and no tree expires**: after any such history of peer messages (solicited, unsolicited,
+foreign roster, mismatching, repeated, deprecated form) and local events, whatever message comes
+next changes what is stored under an identifier only if that identifier is requested and still
+empty at that moment.  The one way around it (`c06_only_requested_full_fails`) needs an `Unregister`
+or an expiry between the parking of a description and the arrival of its roster. -/
+theorem c06_only_requested_full_without_withdrawal (evs : List Ev) (hnw : ∀ e ∈ evs, e.withdraws = false)
+    (m : Msg) (id : Nat) (hne : (handle (runEv {} evs) m).1.get id ≠ (runEv {} evs).get id) :
+    (runEv {} evs).isRequested id = true := by
+  have hlive : ∀ (evs : List Ev) (o : Ovl), (∀ e ∈ evs, e.withdraws = false) → ParkedLive o → ParkedLive (runEv o evs) := by
+    intro evs
+    induction evs with
+    | nil => intro o _ h; exact h
+    | cons e rest ih =>
+      intro o hw h
+      simp only [runEv, List.foldl_cons]
+      exact ih _ (fun x hx => hw x (List.mem_cons_of_mem _ hx)) (parkedLive_step o e (hw e List.mem_cons_self) h)
+  have h0 : ParkedLive ({} : Ovl) := by intro rid sl tm h; simp [lookup] at h
+  have hl := hlive evs {} hnw h0
+  generalize runEv {} evs = o at hne hl
+  cases m with
+  | requestTree tid v => exact absurd (by rw [((c06_requests_read_only o).1 tid v).1]) hne
+  | responseTree tm ro => exact (c06_only_requested_partial o id).1 tm ro hne
+  | treeMarshal tm => exact (c06_only_requested_partial o id).2 tm hne
+  | requestRoster rid => exact absurd rfl hne
+  | sendRoster ro =>
+    obtain ⟨hnone, sl, hsl, tm, hm, hid⟩ := c06_roster_fills_empty_partial o ro id hne
+    have hreg := hl ro.id sl tm hsl hm
+    rw [hid] at hreg
+    unfold Ovl.registered at hreg
+    unfold Ovl.get at hnone
+    unfold Ovl.isRequested
+    cases hlk : lookup o.store id with
+    | none => simp [hlk] at hreg
+    | some v =>
+      cases v with
+      | none => simp
+      | some t => simp [hlk] at hnone
+
+/-- non-vacuity: a history without withdrawal in which a roster message stores a tree (the deprecated
+exchange in order: request, description parked, roster) -/
+example : ∃ (evs : List Ev) (m : Msg) (id : Nat), (∀ e ∈ evs, e.withdraws = false) ∧
+    (handle (runEv {} evs) m).1.get id ≠ (runEv {} evs).get id ∧ (runEv {} evs).isRequested id = true := by
+  let ro : Roster := { id := 1, list := [⟨3, 4, false⟩, ⟨5, 6, false⟩, ⟨7, 8, false⟩] }
+  let tm : TreeMarshal := { treeId := 1, rosterId := 1, children := .node 3 3 (.node 5 5 .nil (.node 7 7 .nil .nil)) .nil }
+  exact ⟨[.loc (.request 1), .peer (.treeMarshal tm)], .sendRoster ro, 1, by decide, by decide, by decide⟩
+
+/-- **what a peer can change, exactly** — on any history: a slot changes only if it is requested and
+empty at that moment, or (the known class) the message is a roster, the slot is empty, a description
+for it is parked under that roster id, and the identifier was requested at some earlier point -/
+theorem c06_store_change_characterised (evs : List Ev) (m : Msg) (id : Nat)
+    (hne : (handle (runEv {} evs) m).1.get id ≠ (runEv {} evs).get id) :
+    (runEv {} evs).isRequested id = true ∨
+    (∃ ro, m = .sendRoster ro ∧ (runEv {} evs).get id = none ∧ id ∈ (runEv {} evs).everReq ∧
+      ∃ sl, lookup (runEv {} evs).pending ro.id = some sl ∧ ∃ tm ∈ sl, tm.treeId = id) := by
+  have hinv := storeInv_run evs
+  generalize runEv {} evs = o at hne hinv
+  cases m with
+  | requestTree tid v => exact absurd (by rw [((c06_requests_read_only o).1 tid v).1]) hne
+  | responseTree tm ro => exact Or.inl ((c06_only_requested_partial o id).1 tm ro hne)
+  | treeMarshal tm => exact Or.inl ((c06_only_requested_partial o id).2 tm hne)
+  | requestRoster rid => exact absurd rfl hne
+  | sendRoster ro =>
+    obtain ⟨hnone, sl, hsl, tm, hm, hid⟩ := c06_roster_fills_empty_partial o ro id hne
+    exact Or.inr ⟨ro, rfl, hnone, by rw [← hid]; exact hinv.2.2 ro.id sl tm hsl hm, sl, hsl, tm, hm, hid⟩
+
+/-- once a roster message has been handled nothing is parked for its id any more: every description
+that waited for it has been stored or dropped (nothing is stuck) -/
+theorem c06_roster_clears_parked (o : Ovl) (ro : Roster) (h : ro.id ≠ 0) :
+    lookup (handle o (.sendRoster ro)).1.pending ro.id = none := by
+  simp only [handle, h, if_false]
+  rw [checkPending_eq]
+  cases hl : lookup o.pending ro.id with
+  | none => simpa using hl
+  | some sl => simp [lookup_erase_self]
 
 /-- **`NewTree` always computes the aggregates from the structure it is given**, whatever the
 aggregate fields of the (possibly re-used) nodes held before: afterwards every node carries the sum
@@ -883,6 +1558,35 @@ theorem c06_shape_Tree_BinaryUnmarshaler :
     Shapes.tree_Tree_BinaryUnmarshaler =
    ["network.Unmarshal", "if:!ok", "return:xerrors.New(\"\")", "NewTreeFromMarshal",
      "if:(err!=nil)", "return:xerrors.Errorf(\"\",err)", "return:nil"] := rfl
+
+
+theorem c06_shape_Tree_Equal :
+    Shapes.tree_Tree_Equal =
+   ["if:(!t.ID.Equal(t2.ID)||!t.Roster.ID.Equal(t2.Roster.ID))", "return:false",
+     "return:t.Root.Equal(t2.Root)"] := rfl
+
+theorem c06_shape_TreeNode_Equal :
+    Shapes.tree_TreeNode_Equal =
+   ["if:(!t.ID.Equal(t2.ID)||!t.ServerIdentity.ID.Equal(t2.ServerIdentity.ID))", "return:false",
+     "if:(len(t.Children)!=len(t2.Children))", "return:false", "if:!c.Equal(t2.Children[])",
+     "return:false", "return:true"] := rfl
+
+theorem c06_shape_Roster_Search :
+    Shapes.tree_Roster_Search =
+   ["if:e.ID.Equal(eID)", "return:i,e", "return:-1,nil"] := rfl
+
+theorem c06_shape_Overlay_handleRequestRoster :
+    Shapes.overlay_Overlay_handleRequestRoster =
+   ["treeStorage.GetRoster", "io.Wrap", "server.Send"] := rfl
+
+theorem c06_shape_Overlay_handleRequestTreeDeprecated :
+    Shapes.overlay_Overlay_handleRequestTreeDeprecated =
+   ["io.Wrap", "server.Send"] := rfl
+
+theorem c06_shape_treeStorage_GetRoster :
+    Shapes.treestorage_treeStorage_GetRoster =
+   ["ts.Lock", "defer:ts.Unlock", "if:((tree!=nil)&&tree.Roster.ID.Equal(id))",
+     "return:tree.Roster", "return:nil"] := rfl
 
 
 end C06
